@@ -7,15 +7,26 @@ CORPUS = [
     "cfg 2 2 1 mode=error fwd=1 | B 0 assume C le E 1 -1 1 1 ; assume C le E 1 1 1 -5 ; arith sdiv 0 1 k 2 ; assert C ne E 1 1 0 -2 1 | B 1 | E 0 1",
 ]
 
-def gen(seed, n, fb=False, modes=("error", "error", "good")):
+SELECT_CORPUS = [
+    # select whose left-hand side occurs in its own condition; x := f(x)
+    "cfg 2 1 1 mode=error fwd=1 bwdcheck=0 nasserts=1 | B 0 select 0 C le E 1 -1 0 -1 E 0 0 E 0 5 | B 1 assert C ne E 1 1 0 -5 1 | E 0 1",
+    "cfg 2 2 1 mode=error fwd=0 bwdcheck=0 nasserts=1 | B 0 assign 0 E 2 2 0 1 1 3 | B 1 assert C le E 1 1 0 -4 1 | E 0 1",
+]
+
+def gen(seed, n, fb=False, modes=("error", "error", "good"), all_stmts=False):
     rng = random.Random(seed)
     lines = [c if fb else c.replace(" fb=1", "") for c in CORPUS]
+    if all_stmts:
+        lines = list(SELECT_CORPUS)
     for i in range(n):
-        h, b, e, na = cfgprog.gen_program(rng, {"asserts": True, "bwd_safe": True, "maxblocks": 9})
+        h, b, e, na = cfgprog.gen_program(rng, {"asserts": True, "bwd_safe": not all_stmts, "maxblocks": 9,
+                                                "more_select": all_stmts})
         mode = "error" if fb else rng.choice(modes)
         opts = [("mode", mode), ("fwd", rng.choice([0, 1, 1])), ("delay", rng.choice([1, 2])), ("desc", rng.choice([0, 1, 2]))]
         if fb:
             opts += [("fb", 1)]
+        if all_stmts:
+            opts += [("bwdcheck", 0)]
         opts += [("nasserts", na)]
         extra = []
         if mode == "good":
